@@ -156,6 +156,7 @@ inline Feat classify(const uint8_t* prog, int nInstr) {
 	return f;
 }
 
+inline std::vector<uint8_t> nopBytes() { std::vector<uint8_t> b(8); put(b.data(), nopEquivalent()); return b; }
 struct ProgCase {
 	std::vector<uint8_t> prog;   // 3200 bytes
 	int v2 = 0, hardAes = 0, secure = 0, fast = 1, fprc = 0, spadClass = 0, shape = 0;
@@ -163,7 +164,7 @@ struct ProgCase {
 	int nInstr() const { return v2 ? RANDOMX_PROGRAM_SIZE_V2 : RANDOMX_PROGRAM_SIZE_V1; }
 	std::string dump() const {
 		return vh::KVWriter()("shape", shapeName(shape))("v2", (uint64_t)v2)("hardAes", (uint64_t)hardAes)("secure", (uint64_t)secure)("fast", (uint64_t)fast)("fprc", (uint64_t)fprc)
-			("spadClass", (uint64_t)spadClass)("spadSeed", spadSeed).bytes("prog", prog.data(), prog.size()).str();
+			("spadClass", (uint64_t)spadClass)("spadSeed", spadSeed).bytes("nopword", nopBytes().data(), 8).bytes("prog", prog.data(), prog.size()).str();
 	}
 	static ProgCase parse(const vh::KV& kv) {
 		ProgCase c;
